@@ -31,6 +31,9 @@ def main():
                     det[c] = "no-failing-input-found" if line[-1].endswith("no-failing-input-found") else "failing-input"
                 elif p.returncode not in (0, 1):
                     det[c] = "error(exit %d)" % p.returncode
+                    os.makedirs(os.path.join(os.environ.get("TMPDIR", "/tmp"), "d42-matrix-errors"), exist_ok=True)
+                    with open(os.path.join(os.environ.get("TMPDIR", "/tmp"), "d42-matrix-errors", f"{name}.{c}.log"), "w") as f:
+                        f.write(out[-6000:])
         finally:
             subprocess.check_call("git -C /repo checkout -- .", shell=True)
         meta["detected_by"] = det
